@@ -35,14 +35,16 @@ class VClock:
 
 
 class CountingIter(object):
-    def __init__(self, items):
-        self.items, self.i = items, 0
+    def __init__(self, items, boom=None):
+        self.items, self.i, self.boom = items, 0, boom
 
     def __iter__(self):
         return self
 
     def __next__(self):
         if self.i >= len(self.items):
+            if self.boom:
+                raise ValueError(self.boom)       # an iterator OBJECT (a cursor, a reader) that fails instead of coming to an end
             raise StopIteration
         self.i += 1
         return self.items[self.i - 1]
@@ -86,7 +88,7 @@ def make_service(P):
                         raise ValueError("boom-" + key)
                 return g()
             if kind == "iterobj":
-                return CountingIter(list(items))
+                return CountingIter(list(items), "boom-" + key if raises else None)
             if kind == "listiter":
                 return iter(list(items))
             if isinstance(kind, tuple) and kind[0] == "slow":
@@ -102,7 +104,7 @@ def gen_spec(r, key):
     n = r.choice([0, 0, 1, 2, 3, 5, 12])
     items = [[key, i, r.choice(["x", None, 1.5, {"k": [i]}])] for i in range(n)]
     kind = r.choice(["gen", "gen", "iterobj", "listiter"])
-    raises = kind == "gen" and r.random() < 0.35
+    raises = kind in ("gen", "iterobj") and r.random() < 0.35
     return (items, raises, kind)
 
 
